@@ -19,6 +19,9 @@ AVG_NAMES = ["bulk_modulus_voigt", "bulk_modulus_reuss", "bulk_modulus_voigt_reu
 CALC_NAMES = ["static_p_array", "freq_array", "mode_gamma0", "mode_gamma1", "mode_gamma2", "config",
               "modulus_keys", "qha_input", "elast_data", "v_array", "t_array"]
 
+# every documented interpolator; the two with open known findings (hermite, akima) get a smaller share
+C12_METHODS = ["lsq_poly"] * 3 + ["spline"] * 3 + ["lagrange"] * 3 + ["krogh"] * 3 + ["pchip"] * 3 + ["hermite", "akima"]
+
 HASH_SEEDS = {"quick": [0, 1, 2718281, 31337], "thorough": [0, 1, 2718281, 31337, 4242424242, 99]}
 
 
@@ -239,7 +242,7 @@ def gen_scenario(prop, seed, tier, faults_enabled=None, nclients=None):
     for n in names:
         kw = {}
         if prop == "C12":
-            kw["method"] = rng.choice(W.INTERPOLATORS)
+            kw["method"] = rng.choice(C12_METHODS)
             kw["system"] = rng.choice(SYSTEM_NAMES)
             kw["dt"] = rng.choice(W.DT_CHOICES + [0.5, 1.0, 2.0])
             if rng.random() < 0.3:
